@@ -14,10 +14,10 @@ MANIFEST = dict(
     text='Lean 4 invariants over an interleaving model of server.OnRead/onAccept/Close and eventLoop.Serve/Shutdown (Netpoll.Server: any number of connections, peers closing at any step, '
          'handlers busy/idle, EMFILE back-off goroutines, one-shot quit channel) prove tracking, absence of stale entries, untrack-before-descriptor-reuse, what a nil / context-error return of '
          'Shutdown means, and that accepting resumes after EMFILE - the back-off goroutine\'s own loop (delay table, index, guard of the increment) is modelled statement by statement '
-         '(Netpoll.Server.Retry) and proved never to index outside its table for EVERY script of accept results, i.e. for exhaustion stretches of any length; the model is tied to /repo on every run by the regenerated statement lists of the nine functions, the regenerated guard / delay table / index expressions of the back-off loop, and by replaying every window '
+         '(Netpoll.Server.Retry) and proved, for EVERY script of accept results (connection / EAGAIN / out-of-descriptor error / any other error, in any order and number), never to index outside its table, to return only after accept answered (nil, nil) and the listener was registered again, and to take the next successful accept whatever errors preceded it; one episode of poller + goroutine (OnRead consults isOutOfFdErr, the goroutine treats every error alike) never stops accepting; the model is tied to /repo on every run by the regenerated statement lists of the nine functions, the regenerated guard / delay table / index expressions / list of ways out (return, break, goto, panic, loop condition) of the back-off loop, and by replaying every window '
          'of the real onAccept/Close (paused between statements by build-time instrumentation) on the model, while the Lean spec judges the implementation\'s observations - real event loops, an '
-         'EMFILE child process and exhaustion stretches of chosen lengths included (a Listener handed to Serve fails k accepts in a row with EMFILE, k = 1..3 and around the length of the '
-         'delay table read from the code; the queued client and a fresh one must be served afterwards; a child process that dies is a violation; the gaps between the retries are compared with the model\'s delays).',
+         'EMFILE child process and exhaustion stretches as scripts of accept results included (a Listener handed to Serve answers its first accepts from the script: k EMFILE in a row, k = 1..3 and around the length of the '
+         'delay table read from the code, and fault sequences - EMFILE / ENFILE followed by or mixed with ECONNABORTED, EINTR, EPROTO, ENETDOWN, ENOBUFS ..., as the poller\'s first error, as the goroutine\'s first retry, deep in the table, with a successful accept in between, plus seeded random scripts; the queued client and a fresh one must be served afterwards; a child process that dies is a violation; the gaps between the accepts are compared with the model\'s delays).',
     note='partial: real-time waits, the kernel accept queue and sync.Map.Range (visits every key present throughout) are assumptions; the per-connection lifecycle is the C05 summary. '
          'Requires fixes/c13-track.patch in /repo (D12 and two Shutdown races; the theorems are about the fixed code, the old behaviour is kept as Lean witnesses + corpus). '
          'Known findings: a second Shutdown returns nil at once; data+FIN inside the accept window is never tracked. Repeated EMFILE episodes busy-loop (accepting still resumes).',
